@@ -3,6 +3,12 @@
 import json, sys
 
 CHECKS = {
+ "C13": dict(cat="exploration", tech="bounded-exhaustive enumeration of all labelled DAGs x all ordered root selections, plus proptest-generated larger DAGs, against a validity predicate (closure set, uniqueness, dependencies first); graphs materialised as buildpack directories and read through the public API",
+   text="Every labelled DAG on up to 4 (quick) / 5 (thorough) nodes is written out as a directory of composite and libcnb.rs buildpacks (with decoys), read back through build_libcnb_buildpacks_dependency_graph and ordered by get_dependencies for every ordered root selection; the output is judged by a validity predicate because many orders are correct. Random DAGs up to 12 nodes, duplicate entries and dangling dependencies are sampled.",
+   note="Only acyclic inputs (the property's domain); the validity predicate and the directory materialisation are the harness's own."),
+ "C14": dict(cat="exploration", tech="proptest-generated package descriptors through package_composite_buildpack; output decoded by an independent TOML reader (Python tomllib) and compared position-wise with a reference lexical path normaliser / id map / verbatim copy",
+   text="Generated package.toml files mixing libcnb:, relative (with ., .., redundant separators, climbing above the root), absolute and docker/http(s)/urn/file dependencies are packaged from different source locations with complete and incomplete id->path maps; the written package.toml is decoded by tomllib and every dependency compared with an independently computed expectation.",
+   note="Inputs are emitted by the harness's own TOML emitter; URI spellings are canonical so that verbatim copy is meaningful; trusted: Python tomllib, the reference normaliser."),
  "C09": dict(cat="exploration", tech="bounded-exhaustive string enumeration + proptest sampling; differential of three acceptance paths (FromStr/TryFrom, TOML+JSON deserialisation, literal macros via one generated cargo check) against hand-written grammar recognisers; display/parse round trips",
    text="All strings up to a length bound over class-representative alphabets (exhaustive for that bound), all reserved-word neighbours, random long strings and version-like strings are decided by hand-written recognisers and compared with every acceptance path incl. the compile-time macros; accepted values must render identically. Exploration beyond the enumerated bound.",
    note="Recognisers are the harness's transcription of the CNB spec grammars; LayerName strings with newline, '/' or NUL are treated as undecided (paths must agree); macro verdicts are read from rustc JSON diagnostics of a generated crate."),
